@@ -25,7 +25,9 @@ def _cp():
     return css_parser
 
 
-NONASCII = ['é', 'ü', 'ß', 'Ω', 'ж', '中', '→', '€', '\xa0', '\xad', 'ÿ', 'İ', '\u2028', '\U0001F600', '\U0010FFFF', 'ا']
+NONASCII = ['é', 'ü', 'ß', 'Ω', 'ж', '中', '→', '€', '\xa0', '\xad', 'ÿ', 'İ', '\u2028', '\U0001F600', '\U0010FFFF', 'ا',
+            # code points no encoding can express (a str may hold them): written as escapes by every codec, UTF-8/16/32 too
+            '\udc9f', '\ud800']
 
 # positions that can hold a non-ASCII character: {} is replaced by the planted string
 POSITIONS = {
@@ -201,23 +203,24 @@ def esc_line(case):
 
 def unesc_cases(tier, seed):
     rnd = random.Random(seed + 131)
-    alpha = list('\\\\\\aAfF0179gz \t\n\r\f"é') + ['\U0010ffff', '\r\n']
+    alpha = list('\\\\\\aAfF0179gz \t\n\r\f"é') + ['\U0010ffff', '\r\n'] + list('dD8cCbBeE')
     cases = [('unesc', c) for c in ['\\110000 x', '\\110000\r\nx', '\\FFFFFF', '\\0', '\\000000a', '\\10FFFF ', '\\D800 x', '\\E9 a',
-                                    '\\E9a', '\\E9  a', '\\e9\r\na']]
+                                    '\\E9a', '\\E9  a', '\\e9\r\na',
+                                    # the edges of the surrogate block, of the BMP and of Unicode
+                                    '\\D7FF', '\\D800', '\\d800 ', '\\DBFF', '\\DC00', '\\dc9f x', '\\DFFF', '\\E000', '\\FFFD', '\\FFFE',
+                                    '\\FFFF', '\\10000', '\\10FFFE', '\\10FFFF', '\\110000', '\\00D800', '\\00DFFFa', '\\7F', '\\80', '\\1']]
     for _ in range(600 if tier == 'quick' else 10000):
         cases.append(('unesc', ''.join(rnd.choice(alpha) for _ in range(rnd.randint(0, 10)))))
     return cases
 
 
 def unesc_py(case):
-    import sys
+    """the escape reading of the running tokenizer (its own replacement callback, not a copy of it): the text is put
+    inside a comment, a token kind that goes through the escape reader and may hold any character"""
     cp = _cp()
-    tk = cp.tokenize2.Tokenizer()
-
-    def _repl(m):
-        num = int(m.group(0)[1:], 16)
-        return chr(num) if num <= sys.maxunicode else m.group(0)
-    return lib.enc(tk.unicodesub(_repl, case[1]))
+    toks = list(cp.tokenize2.Tokenizer().tokenize('/*' + case[1] + '*/'))
+    assert toks[0][0] == 'COMMENT' and len(toks) == 1, toks
+    return lib.enc(toks[0][1][2:-2])
 
 
 def unesc_line(case):
